@@ -301,21 +301,36 @@ class ExclDomain(TagDomain):
     self.uses = []
 
   def flow(self, tags):
-    return frozenset(t for t in tags if t == 'dist')
+    return frozenset(t for t in tags if t in ('dist', 'negdist'))
+
+  def unop(self, op, v, node, st):
+    # the negated distances: excluded from the soft-max by -inf
+    d = v.d or EMPTY
+    if isinstance(op, ast.USub):
+      return frozenset({'dist': 'negdist', 'negdist': 'dist'}.get(t, t)
+                       for t in d if t in ('dist', 'negdist'))
+    return self.flow(d)
 
   def ext_call(self, dotted, args, kwargs, node, st, eng):
     if dotted in (canon('sklearn.metrics.pairwise_distances'),
                   canon('sklearn.metrics.euclidean_distances')):
       return frozenset(['dist'])
+    if dotted == canon('numpy.negative') and args:
+      return self.unop(ast.USub(), args[0], node, st)
     if dotted == canon('numpy.fill_diagonal') and len(args) >= 2:
-      if 'dist' in (args[0].d or ()) and \
-              ast.unparse(node.args[1]) in ('np.inf', 'numpy.inf',
-                                            "float('inf')", 'inf'):
+      fill = ast.unparse(node.args[1])
+      pos = fill in ('np.inf', 'numpy.inf', "float('inf')", 'inf')
+      neg = fill in ('-np.inf', '-numpy.inf', "-float('inf')", '-inf',
+                     "float('-inf')", 'np.NINF', '-np.Inf')
+      tags = args[0].d or ()
+      if ('dist' in tags and 'negdist' not in tags and pos) or \
+              ('negdist' in tags and 'dist' not in tags and neg):
         self.event(st, ('self-excluded',))
       return EMPTY
     if dotted in (canon('scipy.special.logsumexp'), canon('numpy.exp'),
                   canon('scipy.special.softmax')):
-      if any('dist' in (a.d or ()) for a in args):
+      if any(('dist' in (a.d or ())) or ('negdist' in (a.d or ()))
+             for a in args):
         self.uses.append((('self-excluded',) in self.must(st),
                           self.site(node)))
     return super().ext_call(dotted, args, kwargs, node, st, eng)
@@ -341,7 +356,12 @@ def rule_stable_softmax(repo, rep):
       import re
       m = re.match(r'^-\s*(\w+) - logsumexp\(-\s*(\w+), axis=1\)\[:, '
                    r'(np\.newaxis|None)\]$', arg)
-      if m and m.group(1) == m.group(2):
+      m2 = re.match(r'^(\w+) - logsumexp\((\w+), axis=1\)\[:, '
+                    r'(np\.newaxis|None)\]$', arg)
+      if (m and m.group(1) == m.group(2)) or \
+              (m2 and m2.group(1) == m2.group(2)):
+        # exp(x - logsumexp(x)): shift-invariant whatever x is (the sign of
+        # x and the self-exclusion are decided by the other rules)
         rep.derived(R, key, site(f, e),
                     sample=dict(rule=R, function=key, softmax=arg))
       elif 'logsumexp' in arg or 'softmax' in arg:
@@ -1087,7 +1107,16 @@ def rule_softmax_objectives(repo, rep):
     ok_c = c == EW.const(coef).mul(sgn)
     ok_w = wsym == want_sym
     ok_d = dg is not None and dg == want_diag
-    if ok_c and ok_w and ok_d:
+    # only the product matters: a sign moved from the pair weights into the
+    # scalar factor (or a factor 2 moved the other way) changes nothing
+    wantc = EW.const(coef).mul(sgn)
+    try:
+      prod_ok = dg is not None and \
+          wsym.mul(c) == want_sym.mul(wantc) and \
+          dg.mul(c) == want_diag.mul(wantc)
+    except Exception:
+      prod_ok = False
+    if (ok_c and ok_w and ok_d) or prod_ok:
       rep.derived(R, key + ':gradient', site(f, node))
     else:
       rep.refuted(R, key + ':gradient', site(f, node), 'gradient is '
